@@ -75,6 +75,62 @@ Theorem C07_pin_lexer_sentinel :
   lexer_leading_blank_pattern = pinned_lexer_leading_blank_pattern.
 Proof. exact (conj pin_lexer_sentinel_guard (conj pin_lexer_sentinel_pos pin_lexer_leading_blank_pattern)). Qed.
 
+(* canonical text of a core4 document carries no lexer receipt (reps = []) and only warnings of the classes {5,6,7,9};
+   none of them is a rewrite receipt *)
+From OV Require Rt.TokRound4 Rt.LexLink4Text Rt.LexLink4.
+Theorem C07_text_canonical_silent_core4 :
+  forall cls numcanon holo_ok strict sp d,
+    TokRound4.core4_doc d = true -> LexLink4.lex_safe4_doc d = true ->
+    TokRound4.nums_ok4_l numcanon TokRound2Ex.ex_idnum (dsections d) ->
+    Forall (TokRound4.field_num_ok4 numcanon TokRound2Ex.ex_idnum) (dmeta d) ->
+    exists warns, parse_model cls numcanon holo_ok strict (lines_of (emit sp d)) = PRDoc d [] warns /\ Forall TokRound4.advisory4 warns.
+Proof. exact LexLink4.text_roundtrip_core4. Qed.
+
+(* ---- PARSER-SIDE RECEIPTS: multi-word bare values (Rt/MultiWord*.v) -------------------------------------------------------
+   A spelling oracle chooses, per assignment / META string site, between the quoted, the bare and the MULTI-WORD spelling
+   (w1 w2 ... wn, n >= 2, joined by one blank = the string).  Parsing a token list of that shape returns the same document d
+   as the quoted spelling, and the multi_word_coalesce records among the new warnings are EXACTLY (same order, same fields:
+   the words as written, the resulting string, line and column of the first word) the sites spelled multi-word: receipts =
+   rewrites, at every depth.  A single bare word and a quoted value push no record. *)
+From OV Require Rt.MultiWord Rt.MultiWordEx.
+Theorem C07_multiword_value_one_receipt :
+  forall numcanon holo_ok strict sp f st w1 ws t1 tws nt r,
+    ptoks st = t1 :: tws ++ nt :: r -> tmatch t1 (IDENTIFIER, Some (TVText w1)) -> has_annotation w1 = false ->
+    ws <> [] -> Forall2 tmatch tws (map MultiWord.wsh ws) -> forallb MultiWord.word_ok ws = true -> MultiWord.mw_stop (tk nt) = true ->
+    exists st', parse_value numcanon holo_ok strict sp (S f) st = POk (VStr (join_sp (w1 :: MultiWord.texts ws))) st' /\
+                ptoks st' = nt :: r /\ pwarns st' = MultiWord.mw_rec (w1 :: MultiWord.texts ws) t1 :: pwarns st /\
+                pbdepth st' = pbdepth st /\ ppos st' = (ppos st + N.of_nat (S (length tws)))%N.
+Proof. exact MultiWord.pv_multi. Qed.
+
+Theorem C07_multiword_receipts_are_the_rewrites :
+  forall numcanon holo_ok strict sp alpha ml idnum (qa5 : str -> str -> MultiWord.spell) (qm5 : str -> MultiWord.spell)
+         (qi : str -> BareWordParse.strk),
+    (forall k s, MultiWord.spell_ok s (qa5 k s) = true) -> (forall s, MultiWord.spell_ok s (qm5 s) = true) ->
+    (forall s, qi s = BareWordParse.QIdent -> has_annotation s = false) ->
+    forall d, core2_doc d = true -> nums_ok2_l numcanon idnum (dsections d) -> Forall (field_num_ok numcanon) (dmeta d) ->
+    forall st0 ts tail, tail <> [] -> pbdepth st0 = 0%N ->
+      Forall2 tmatch ts (MultiWord.doc5_sh ml idnum qa5 qm5 qi d) -> ptoks st0 = ts ++ tail ->
+      exists st', parse_document numcanon holo_ok strict sp alpha st0 = POk d st' /\
+                  MultiWord.sx st0 st' (MultiWord.E ts (MultiWord.doc5_mk ml qa5 qm5 qi d)).
+Proof. exact MultiWord.parse_core5_doc. Qed.
+
+Theorem C07_multiword_records_shape :
+  forall ts ms, Forall (fun w => wsub w = 1%N /\ wb w = [] /\ wa w = join_sp (wparts w) /\ wnums w = []) (MultiWord.E ts ms).
+Proof. exact MultiWord.E_records. Qed.
+
+Theorem C07_single_word_and_quoted_no_receipt :
+  forall numcanon holo_ok strict sp f st t nt r s,
+    ptoks st = t :: nt :: r -> tk t = IDENTIFIER -> tv t = TVText s -> BareWordParse.after_scalar (tk nt) = true -> has_annotation s = false ->
+    exists st', parse_value numcanon holo_ok strict sp (S f) st = POk (VStr s) st' /\ pwarns st' = pwarns st.
+Proof. exact MultiWord.pv_one_word_no_record. Qed.
+
+(* non-vacuity: a depth-3 text with four multi-word sites (META and body) read through the lexer model and the reader *)
+Theorem C07_multiword_nonvacuous :
+  exists warns, parse_model TokRoundEx.ex_cls ex2_numcanon (fun _ => false) false (lines_of MultiWordEx.mw_text) = PRDoc MultiWordEx.mw_doc [] warns /\
+                Forall MultiWord.advisory5 warns /\
+                filter MultiWord.is_mw warns = MultiWord.E (firstn (length MultiWordEx.mw_sh) (MultiWordEx.toks_of MultiWordEx.mw_text)) MultiWordEx.mw_mk.
+Proof. exact MultiWordEx.mw_by_theorem. Qed.
+
 (* ---- source-text pins (generated by harness/pinsets.py) ---- *)
 (* every function of these modules is, text for text (comments and docstrings excluded), the one the models of this
    property were written against and validated against: harness/translate/srcdigest_t.py, Src/Pin_*.v *)
